@@ -20,7 +20,7 @@ func init() {
 		ID: "C13",
 		Rule: "case = one curve with 0..120 (400 thorough) pairwise-distinct vertices (8%: with 1-3 later, non-adjacent copies of earlier vertices - spurs, pinches, inner loops - judged by searching for any admissible embedding; incrementally built random simple lines checked by the exact simplicity test, monotone lines, zigzags, spirals, 'hook' lines whose end returns near the start, near-collinear runs, and unfiltered random lines for the termination/subsequence/tolerance clauses) and a tolerance from {0, 1e-12 d, U(0,d), >d, +Inf}, simplified as LineString and as member of MultiLineString / ring of Polygon / MultiPolygon; " +
 			"monitors: a second high-volume phase of 'box walks' (6..40 vertices uniform in a box, exactly simple, 60% ending inside a pocket of three earlier consecutive vertices, tolerance U(0,0.4) of the box) aimed at multi-step back-off in one scan step; hooked step counter (output never longer than input, loop steps <= 4n^2+100) turning non-termination into a finite violation; output is an order-preserving subsequence keeping first and last vertex; every dropped vertex within tol(1+1e-12) of its replacing segment (extended precision); exact simplicity of the output when the input is exactly simple; input unmodified; members simplified independently; " +
-			"a third phase 'far_vertex': an ordinary simple box walk whose first or last vertex (or both) is moved out to 1e20..1e300 (axis-parallel, diagonal or oblique), judged with a rounding slack that counts only the dropped vertex and the NEARER end of its replacing segment (the differences that a careful evaluation forms), so that an ordinary vertex hundreds of units off a segment reaching out to 1e200 must be kept; an evaluation is one Simplify call judged; non-trivial = simple input with >= 4 vertices from which at least one vertex was dropped; distinct by input hash",
+			"a third phase 'far_vertex': an ordinary simple box walk whose first or last vertex (or both) is moved out to 1e20..1e300 (axis-parallel, diagonal or oblique), 20% with the ordinary part itself 1e-60..1e-3 in size (far vertices then up to 1e200), 8% with both ends in the last binade on opposite sides (their difference is no float64); judged with a rounding slack of 64 times what one ulp of each coordinate of the vertex and of the two ends can change the distance by (an X ordinate counts with |uy|, a Y ordinate with |ux| of the unit vector along the segment when the vertex projects into it), so that an ordinary vertex hundreds of units off a segment reaching out to 1e200 must be kept; an evaluation is one Simplify call judged; non-trivial = simple input with >= 4 vertices from which at least one vertex was dropped; distinct by input hash",
 		Assumptions: []string{"'terminates' is decided as bounded progress on the hooked loops", "vertices pairwise distinct so that the subsequence match is unambiguous, except in the revisit cases, where any admissible embedding is searched for", "simplicity preservation is judged for open line strings that are simple by the exact test"},
 		Phases: []core.Phase{{Name: "curves", NumCases: func(t string) int {
 			if t == "thorough" {
@@ -42,8 +42,8 @@ func init() {
 		Setup: func(c *core.Ctx) { geom.VerifSimplifyHook = hook },
 		Floors: func(t string) map[string]int64 {
 			return map[string]int64{"len.0": 20, "len.1": 20, "len.2": 20, "len.3": 20, "simple_input.judged": 3000, "dropped_vertices.checked": 10000, "shape.hook": 500, "shape.spiral": 500, "shape.out_and_back": 500,
-				"tol.zero": 500, "tol.inf": 500, "storage.members_share_one_backing_array": 1000, "polygon.rings_unclosed": 500, "revisit.judged": 500, "boxwalk.simple_judged": 50000, "boxwalk.tail_returns_into_pocket": 15000, "boxwalk.vertices_dropped": 25000, "multi.members_independent": 500, "polygon.rings": 500, "hook.steps_seen": 10000,
-				"far.simple_judged": 2000, "far.vertices_dropped": 500, "far.ordinary_vertex_kept_for_tolerance": 300, "far.end_beyond_1e154": 1000}
+				"tol.zero": 500, "tol.inf": 500, "storage.members_share_one_backing_array": 1000, "polygon.rings_unclosed": 500, "revisit.judged": 500, "boxwalk.simple_judged": 50000, "boxwalk.on_an_integer_lattice": 10000, "boxwalk.tail_returns_into_pocket": 10000, "boxwalk.vertices_dropped": 25000, "multi.members_independent": 500, "polygon.rings": 500, "hook.steps_seen": 10000,
+				"far.simple_judged": 2000, "far.vertices_dropped": 500, "far.ordinary_vertex_kept_for_tolerance": 300, "far.end_beyond_1e154": 1000, "far.ordinary_part_tiny": 1000, "far.end_in_the_last_binade": 500, "far.ends_on_opposite_sides_in_the_last_binade": 300}
 		},
 	})
 }
@@ -290,9 +290,7 @@ func judge(c *core.Ctx, in []geom.Point, out []geom.Point, tol float64, shape, k
 			dropped++
 			d := exact.DistPointSeg(gen.EP(in[k]), gen.EP(a), gen.EP(b))
 			if shape == "far_vertex" {
-				// local slack: the dropped vertex and the nearer end of the segment
-				inf := func(p geom.Point) float64 { return math.Max(math.Abs(p.X), math.Abs(p.Y)) }
-				slack = 64 * 1.2e-16 * math.Max(inf(in[k]), math.Min(inf(a), inf(b)))
+				slack = farSlack(in[k], a, b)
 			}
 			if !(d <= tol*(1+1e-12)+slack) && !math.IsInf(tol, 1) {
 				last := "inner"
@@ -343,11 +341,24 @@ func runBoxwalk(c *core.Ctx, idx int) {
 		c.Count("boxwalk.degree_scale")
 	}
 	tail := r.Chance(0.6)
+	// a quarter of the walks live on a small integer lattice (rectilinear, gridded or box-clipped
+	// data): non-adjacent vertices share an X or a Y, chords and segments are exactly axis-parallel,
+	// extents of crossing segments overlap in a zero-width interval. No three vertices collinear.
+	lattice := r.Chance(0.25)
+	if lattice {
+		n = r.IntRange(5, 12)
+		scale, ox, oy = float64(r.IntRange(8, 14)), float64(r.IntRange(-20, 20)), float64(r.IntRange(-20, 20))
+		tail = false
+		c.Count("boxwalk.on_an_integer_lattice")
+	}
 	pts := make([]geom.Point, 0, n)
 	for len(pts) < n {
 		ok := false
 		for try := 0; try < 40 && !ok; try++ {
 			p := geom.Point{X: ox + r.Float64()*scale, Y: oy + r.Float64()*scale}
+			if lattice {
+				p = geom.Point{X: ox + float64(r.Intn(int(scale)+1)), Y: oy + float64(r.Intn(int(scale)+1))}
+			}
 			if tail && len(pts) == n-1 {
 				k := 1 + r.Intn(len(pts)-3)
 				p = geom.Point{X: (pts[k].X+pts[k+1].X+pts[k+2].X)/3 + r.Range(-0.05, 0.05)*scale,
@@ -368,6 +379,17 @@ func runBoxwalk(c *core.Ctx, idx int) {
 					bad = true
 				}
 			}
+			if lattice && !bad {
+				// (small integers: the cross product is exact)
+				for i := 0; i < len(pts) && !bad; i++ {
+					for j := 0; j < i; j++ {
+						if (pts[i].X-p.X)*(pts[j].Y-p.Y)-(pts[i].Y-p.Y)*(pts[j].X-p.X) == 0 {
+							bad = true
+							break
+						}
+					}
+				}
+			}
 			if !bad {
 				pts = append(pts, p)
 				ok = true
@@ -386,6 +408,9 @@ func runBoxwalk(c *core.Ctx, idx int) {
 		return
 	}
 	tol := scale * r.Range(0, 0.4)
+	if lattice {
+		tol = []float64{0.5, 1, 1.5, 2, 3}[r.Intn(5)] * r.Range(0.9, 1.1)
+	}
 	l := geom.LineString(pts)
 	detail := map[string]interface{}{"input": gen.Dump(l), "tolerance": fmt.Sprint(tol), "shape": "boxwalk", "input_is_simple": true}
 	c.Eval()
@@ -474,6 +499,34 @@ func judgeRevisit(c *core.Ctx, in, out []geom.Point, tol float64, detail map[str
 	}
 }
 
+// farSlack is the rounding allowance of the far_vertex phase for the distance from p to the segment
+// a-b: 64 times what that distance changes by when each coordinate of p, a and b moves by one ulp
+// of its own (the coordinates are given to no better than that, so no evaluation can be asked for
+// more). When p projects into the segment the distance is the one to the line, and an X
+// coordinate counts with |uy|, a Y coordinate with |ux| (u the unit vector along the segment): a
+// chord between two ends 1e308 apart in X but ordinary in Y is placed as precisely as its Y
+// coordinates. Otherwise the distance is the one to an end point, and p and that end count fully.
+func farSlack(p, a, b geom.Point) float64 {
+	inf := func(q geom.Point) float64 { return math.Max(math.Abs(q.X), math.Abs(q.Y)) }
+	if inf(a) > inf(b) {
+		a, b = b, a
+	}
+	const k = 64 * 1.2e-16
+	vx, vy, wx, wy := b.X/8-a.X/8, b.Y/8-a.Y/8, p.X/8-a.X/8, p.Y/8-a.Y/8
+	l := math.Hypot(vx, vy)
+	if l == 0 || math.IsInf(l, 0) || math.IsNaN(l) {
+		return k * math.Max(inf(p), inf(a))
+	}
+	ux, uy := vx/l, vy/l
+	if t := wx*ux + wy*uy; t <= 0 {
+		return k * math.Max(inf(p), inf(a))
+	} else if t >= l {
+		return k * math.Max(inf(p), inf(b))
+	}
+	// (the sums of three ordinates are formed of their eighths: three ordinates of the last binade overflow)
+	return 8 * k * ((math.Abs(p.X)/8+math.Abs(a.X)/8+math.Abs(b.X)/8)*math.Abs(uy) + (math.Abs(p.Y)/8+math.Abs(a.Y)/8+math.Abs(b.Y)/8)*math.Abs(ux))
+}
+
 // farDist is a float64 estimate of the distance from p to the segment a-b that stays meaningful when
 // one end of the segment is astronomically far away (it measures from the nearer end and never squares).
 // It only filters inputs; the judgement uses the extended-precision distance.
@@ -505,10 +558,26 @@ func runFar(c *core.Ctx, idx int) {
 	r := c.R
 	n := r.IntRange(3, 12)
 	scale := math.Pow(10, r.Range(0, 3))
+	tiny := false
+	if r.Chance(0.2) {
+		// the ordinary part itself tiny: 1e-120 .. 1e-3 next to 1e20 .. 1e300
+		// (not below 1e-60, and then no far vertex beyond 1e200: with a ratio of 1e300 and more
+		// the small component of the unit vector along the chord is no float64 any more)
+		scale = math.Pow(10, r.Range(-60, -3))
+		tiny = true
+		c.Count("far.ordinary_part_tiny")
+	}
 	far := func() geom.Point {
 		h := math.Pow(10, r.Range(20, 300))
 		if r.Chance(0.5) {
 			h = math.Pow(10, r.Range(155, 300))
+		}
+		if r.Chance(0.12) && !tiny {
+			h = r.Range(0.6e308, 1.79e308) // the difference of two such ordinates of opposite sign is not a float64
+			c.Count("far.end_in_the_last_binade")
+		}
+		if tiny && h > 1e200 {
+			h = math.Pow(10, r.Range(20, 200))
 		}
 		sx, sy := 1.0, 1.0
 		if r.Chance(0.5) {
@@ -542,6 +611,21 @@ func runFar(c *core.Ctx, idx int) {
 	}
 	if which != 0 {
 		pts[n-1] = far()
+	}
+	if r.Chance(0.08) && !tiny {
+		// both ends in the last binade, on opposite sides: their difference overflows
+		h0, h1 := r.Range(0.6e308, 1.79e308), r.Range(0.6e308, 1.79e308)
+		if r.Bool() {
+			pts[0], pts[n-1] = geom.Point{X: -h0, Y: r.Range(-1, 1) * scale}, geom.Point{X: h1, Y: r.Range(-1, 1) * scale}
+		} else {
+			pts[0], pts[n-1] = geom.Point{X: r.Range(-1, 1) * scale, Y: h0}, geom.Point{X: r.Range(-1, 1) * scale, Y: -h1}
+		}
+		if r.Chance(0.6) {
+			// three vertices: the chord between the two far ends is the first one tried
+			pts = []geom.Point{pts[0], pts[1], pts[n-1]}
+			n = 3
+		}
+		c.Count("far.ends_on_opposite_sides_in_the_last_binade")
 	}
 	for i := range pts {
 		for j := 0; j < i; j++ {
